@@ -176,9 +176,12 @@ def run_check(mod, tier: str, seed: int, workers: Optional[int] = None) -> int:
             pool.join()
     wall = time.time() - t0
     if errors:
-        sys.stdout.write("HARNESS-ERROR property=%s\n%s\n" % (prop, "\n".join(errors[:3])))
+        # a crashing shard is a harness problem (exit 2) - unless other shards did find violations, which are then
+        # still reported below (exit 1), with the crash noted
+        sys.stdout.write("HARNESS-ERROR property=%s (%d shard(s))\n%s\n" % (prop, len(errors), "\n".join(errors[:3])))
         sys.stdout.flush()
-        return 2
+        if not total.viol_counts:
+            return 2
 
     known = load_known()
     new_violations = []
@@ -228,6 +231,7 @@ def run_check(mod, tier: str, seed: int, workers: Optional[int] = None) -> int:
         "wall_s": round(wall, 3),
         "violations": sum(total.viol_counts[v["signature"]] for v in new_violations),
         "known_findings_hit": sorted(known_hits),
+        "harness_errors": len(errors),
     }
     with open(os.path.join(EVIDENCE_DIR, f"{prop}.json"), "w") as f:
         json.dump(ev, f, indent=1, sort_keys=False)
@@ -260,4 +264,6 @@ def run_check(mod, tier: str, seed: int, workers: Optional[int] = None) -> int:
           f"violations_new={sum(total.viol_counts[v['signature']] for v in new_violations)} "
           f"violations_matching_known_findings={total.violation_count - sum(total.viol_counts[v['signature']] for v in new_violations)} "
           f"wall={wall:.1f}s")
+    if errors and rc == 0:
+        return 2
     return rc
